@@ -132,3 +132,57 @@ PROPS["C18"]["steps"].append(
         H("c18_b64_decode_inverts_n6", "bounded", "decode(b64(x)) == x, |x| = 6 (two groups)", bound="|x| = 6", timeout=600),
         H("c18_sha1_padded_len_complete", "complete", "SHA-1 padded message length formula for every n < 2^56 (RFC 3174 section 4)"),
     ]))
+
+from . import gen_c11 as _g
+
+IOERR_REC = (r"rec:^(std::ptr::drop_glue::<(std::io::Error|core::io::error::repr::Repr|core::io::error::CustomOwner|core::io::error::ErrorData<.*>"
+             r"|std::result::Result<.*std::io::Error>|core::io::write::default_write_fmt::Adapter<.*>)>"
+             r"|<core::io::error::repr::Repr as std::ops::Drop>::drop|<core::io::error::CustomOwner as std::ops::Drop>::drop)$")
+
+
+def _c11_scripts():
+    hs = []
+    for name, sc, mode in _g.harness_names(3):
+        tag = " ".join("%s%s" % ({0: "Cont", 1: "Text", 2: "Bin", 8: "Close", 9: "Ping", 10: "Pong"}[op], "" if fin else "(more)") for op, fin in sc)
+        hs.append(H(name, "bounded",
+                    "client script [%s], %s receive: messages = fragments concatenated, kind from first fragment; one well-formed unmasked Pong per Ping "
+                    "and Close per Close echoing the payload, nothing else written; Close => ConnectionClosed + closed; drop of an open stream sends one empty Close"
+                    % (tag, "non-blocking" if mode else "blocking"),
+                    bound="%d frames, payload %d byte(s) each, symbolic payload bytes" % (len(sc), 2 if len(sc) <= 2 else 1),
+                    tier="quick" if len(sc) <= 2 else "thorough", timeout=900))
+    return hs
+
+
+PROPS["C11"] = dict(
+    level="model_checking",
+    steps=[
+        dict(kind="kani", crate="humphrey_ws", module="in_ws", tag="c11a", jobs=8, harnesses=[
+            H("c11_frame_nonblocking_arrived0", "modular", "Frame::from_stream_nonblocking with nothing arrived: `nothing yet`, no byte consumed, stream left blocking"),
+            H("c11_frame_nonblocking_arrived1", "modular", "only the first header byte has arrived: the decoder continues from the frame's real 2 header bytes, after consuming exactly 2, in blocking mode (any 6 bytes)"),
+            H("c11_frame_nonblocking_arrived2", "modular", "same with the whole header arrived"),
+            H("c11_frame_nonblocking_arrived6", "modular", "same with more than the header arrived"),
+            H("c11_nonblocking_nothing_yet", "modular", "WebsocketStream::recv_nonblocking on a silent connection: nothing yet, nothing consumed or written (real decoder, ghost socket)"),
+            H("c11_message_nonblocking_nothing_yet", "modular", "Message::from_stream_nonblocking passes `nothing yet` through, writes nothing"),
+            H("c11_send_and_ping_frames", "bounded", "send(binary message) and ping() each write exactly one well-formed unmasked frame", bound="3-byte message"),
+            H("c11_drop_sends_close", "modular", "dropping an open WebsocketStream writes exactly the empty Close frame 88 00"),
+            H("c11_handshake_without_key", "modular", "upgrade request without Sec-WebSocket-Key: user handler not run, nothing written"),
+        ]),
+        dict(kind="kani", crate="humphrey_ws", module="in_ws", tag="c11s", jobs=8,
+             unwind_rules=[(IOERR_REC, 1), (r"write_all", 2)], harnesses=_c11_scripts()),
+    ],
+    kani_functions=[dict(file="humphrey-ws/src/message.rs", item="Message::from_stream, Message::from_stream_nonblocking", engine="kani"),
+                    dict(file="humphrey-ws/src/stream.rs", item="WebsocketStream::{recv, recv_nonblocking, send, ping, send_raw, drop}", engine="kani"),
+                    dict(file="humphrey-ws/src/frame.rs", item="Frame::from_stream_nonblocking", engine="kani"),
+                    dict(file="humphrey-ws/src/handler.rs", item="websocket_handler / handshake (no-key path)", engine="kani")],
+    assumptions=[
+        "MODULAR: Message::from_stream* is verified against the contract of Frame::from_stream (next frame of the stream, payload unmasked, or ReadError at EOF) -- that contract is what C10 decides; the stub hands out frames of a script",
+        "Frame::from_stream_nonblocking is verified against the contract of from_stream_inner (C10) with the socket replaced by a ghost byte stream; WouldBlock is represented by Ok(0), which the code maps to the same result",
+        "write_all / read_exact retry loops of std are executed with per-loop unwinding bounds; io::Error drop-glue recursion is bounded at 1 with unwinding assertions on",
+    ],
+    not_covered=[
+        "Sec-WebSocket-Accept == Base64(SHA-1(key + GUID)): the concatenation is format!, which neither verifier executes; SHA-1 digest equality is only in the thorough tier of C18 and bounded",
+        "the 101 response's status line and header layout (Vec<u8>::from(Response) uses format!)",
+        "scripts longer than 3 frames, payloads longer than 2 bytes per frame, write errors",
+        "byte-level segmentation inside message reception (delegated to the read_exact contract, see C10)",
+    ],
+)
